@@ -133,6 +133,11 @@ class IpcCommand:
             return 0
         elif isinstance(ret, tuple):
             code, response = ret
+            # the reply is one line; a multi-line message (captured command
+            # output) travels with its newlines escaped. The bash side's read
+            # strips one level of backslashes, die (echo -e) and eerror
+            # (printf %b) expand the remaining \n again.
+            response = str(response).strip("\n").replace("\n", "\\\\n")
             return f"{code}\x07{response}"
         elif isinstance(ret, (int, str)):
             return f"0\x07{ret}"
